@@ -691,6 +691,43 @@ def lengthen_names(draw: Any, unit: Unit) -> int:
     return n
 
 
+GENERATED_LIKE_PREFIXES = ["bp_", "bp_", "encode_", "decode_", "json_", "size_", "bytes_length_", "string_", "array_"]
+
+
+def generated_like_names(draw: Any, unit: Unit) -> int:
+    """A few FIELDS get names that begin like the names generated code gives its own things (`bp_left`, `encode_mode`,
+    `size_hint`, `json_tag`): legal, distinct from every generated name (a word always follows the prefix), and exactly what a
+    rule keyed on a name prefix would trip over.  Fields that reach a message (directly or through arrays) are preferred."""
+    from . import scoping
+    from .model import iter_messages, resolve
+
+    def reaches_message(t: Any) -> bool:
+        rt = resolve(t)
+        while isinstance(rt, TArray):
+            rt = resolve(rt.elem)
+        return isinstance(rt, Message)
+
+    cands: List[Any] = []
+    for f in unit.files:
+        for m in iter_messages(f):
+            for fl in m.fields():
+                if fl.name == "type" or len(fl.name) > 40:
+                    continue
+                cands.extend([fl] * (4 if reaches_message(fl.type) else 1))
+    if not cands:
+        return 0
+    n = 0
+    for fl in draw(st.lists(st.sampled_from(cands), min_size=1, max_size=3, unique_by=id)):
+        new = draw(st.sampled_from(GENERATED_LIKE_PREFIXES)) + fl.name
+        if any(x.name == new for x in fl.parent.fields()):
+            continue
+        fl.name = new
+        n += 1
+    if n and not (scoping.retext(unit) and scoping.names_unique(unit)):
+        raise AssertionError("prefixed field names must stay resolvable and unique")
+    return n
+
+
 SHARED_NAMES = ["Kind", "Mode", "Sample", "Inner", "State"]
 
 
